@@ -332,6 +332,15 @@ def run(ctx):
             for c in ch:
                 flat += [len(c)] + list(c)
             cases.append(flat); meta.append(('from', msgs, wire, ign, ch))
+    # receive buffers filled to the brim (4096 bytes and more arrive at once, the connection closes right after): nothing buffered is lost
+    for sizes in ([1500, 1500, 1500, 3, 3], [4090, 2, 2], [5000, 1], [2040, 2040, 1, 1, 1], [9000, 4, 4]):
+        msgs = [bytes(rng.getrandbits(8) for _ in range(k)) if k > 8 else rng.randrange(10 ** k) for k in sizes]
+        wire = b'\n'.join(tnetstrings.dump(mv) for mv in msgs) + b'\n'
+        for ch in ([wire], [wire[:4096], wire[4096:]], [wire[:4095], wire[4095:]]):
+            flat = [3, 1, 10, len(ch)]
+            for c in ch:
+                flat += [len(c)] + list(c)
+            cases.append(flat); meta.append(('from', msgs, wire, b'\n', ch))
     outs = core.run_model('tnet', cases)
     ndis = 0
     first = None
